@@ -17,14 +17,14 @@ ALL_INVS = {
 ACTS = {
     'C03': {'Hist', 'Events', 'Prev', 'Next'},
     'C04': {'Hist', 'Jumps', 'Mono'},
-    'C05': {'Hist', 'Jumps', 'Matrix', 'Counter', 'Edges', 'Occ', 'AtomLoc', 'JumpDiff', 'Split', 'Rates'},
+    'C05': {'Hist', 'Jumps', 'Matrix', 'Counter', 'Edges', 'Occ', 'AtomLoc', 'OccType', 'JumpDiff', 'Split', 'Rates'},
     'C19': {'Hist', 'Split', 'TrajSplit', 'Rates'},
 }
 # verdicts that belong to another property's clause are not judged by this property
 JUDGED = {
     'C03': {'Events', 'Prev', 'Next'},
     'C04': {'Jumps', 'Mono'},
-    'C05': {'Matrix', 'Counter', 'Edges', 'Occ', 'AtomLoc', 'JumpDiff', 'Rates'},
+    'C05': {'Matrix', 'Counter', 'Edges', 'Occ', 'AtomLoc', 'OccType', 'JumpDiff', 'Rates'},
     'C19': {'Split', 'TrajSplit'},
 }
 
@@ -185,7 +185,7 @@ def _nontrivial(rec):
     for key in ('rows', 'edges', 'counts', 'parts', 'sums', 'ranges'):
         if key in rec and len(rec[key]) > 0:
             return True
-    if rec['act'] in ('Prev', 'Next', 'Occ', 'AtomLoc', 'Matrix', 'JumpDiff'):
+    if rec['act'] in ('Prev', 'Next', 'Occ', 'AtomLoc', 'OccType', 'Matrix', 'JumpDiff'):
         return True
     return False
 
